@@ -49,6 +49,26 @@ theorem memo_keys_bounded [DecidableEq K] (c : Cfg A K V) :
     simp only [runCalls]
     exact ih _ (call_keys_bounded c s x h)
 
+/-- **File-hash cache** (`util.file_monitoring_lru_cache`): the key is (path, (mtime_ns, size),
+other arguments).  If the file-system stamp distinguishes the contents a path takes during the
+history (`hstamp`, the stated assumption), every history of `hashfile` calls interleaved with
+rewrites returns the hash of the content present at call time. `A = path × content × args`. -/
+theorem file_cache_sound {P Cn S Ar V : Type} [DecidableEq P] [DecidableEq S] [DecidableEq Ar]
+    (stamp : P → Cn → S) (h : P → Cn → Ar → V)
+    (hstamp : ∀ p c c', stamp p c = stamp p c' → c = c') (cap : Nat)
+    (hist : List (P × Cn × Ar)) :
+    (runCalls { f := fun a => h a.1 a.2.1 a.2.2, enc := fun a => (a.1, stamp a.1 a.2.1, a.2.2),
+                cap := cap } { store := [], keys := [] } hist).2
+      = hist.map (fun a => h a.1 a.2.1 a.2.2) := by
+  apply memo_fresh
+  intro a b hab
+  obtain ⟨p, c, ar⟩ := a
+  obtain ⟨p', c', ar'⟩ := b
+  simp only [Prod.mk.injEq] at hab
+  obtain ⟨hp, hs, ha⟩ := hab
+  subst hp; subst ha
+  rw [hstamp p c c' hs]
+
 /-! ## 2. the call encoding -/
 
 inductive Item where
